@@ -324,7 +324,8 @@ def oracle(planner, ops, out, rc, err):
             fails.append((i, "invalid-start", "INVALID_START although the problem definition holds a valid start state",
                           {"evals0": d.get("evals") == "0", "after_clearQuery": any(opname(x) == "clearQuery" for x in ops[:i])}))
         if st == "INVALID_GOAL" and valid_goal:
-            fails.append((i, "invalid-goal", "INVALID_GOAL although the goal state of the problem definition is valid"))
+            fails.append((i, "invalid-goal", "INVALID_GOAL although the goal state of the problem definition is valid",
+                          {"evals0": d.get("evals") == "0", "resumed": c.split("/")[0] not in ("first", "clear", "clearQuery") and "clear" not in c}))
         if st == "INFEASIBLE" and d["exact"] == "1":
             fails.append((i, "infeasible-with-solution", "INFEASIBLE (\"the planner decided that the problem is infeasible\") while the "
                                                          "problem definition holds an exact solution"))
